@@ -407,6 +407,10 @@ type Run struct {
 	pending   []pendingAssert
 	purpose   string
 	pcSet     map[int]bool
+	inCursor  int
+	rndCursor int
+	rndTerms  []*sym.Term
+	orderPolicy int
 	stubs     map[string]int
 	bounds    map[string]string
 	blobLens  []*sym.Term
@@ -414,6 +418,7 @@ type Run struct {
 
 func newRun(ex *Explorer, se *session, prefix []Decision) *Run {
 	r := &Run{ex: ex, sp: se.sp, sess: se, names: map[int]string{}, pcSet: map[int]bool{}, prefix: prefix, defined: map[int]bool{}, funcs: map[string]int{}, stubs: map[string]int{}, bounds: map[string]string{}}
+	r.orderPolicy = ex.Opt.OrderPolicy
 	ctx := sym.NewCtx()
 	r.in = &Interp{P: ex.P, ctx: ctx, run: r, globals: map[*ssa.Global]Ptr{}}
 	return r
@@ -1085,8 +1090,25 @@ func (r *Run) inputsWithModel(m map[string]uint64) []InputRec {
 	return out
 }
 
-// NewInput creates a fresh symbolic input.
+// RewindInputs makes subsequent vp* input calls re-issue the inputs created so
+// far, in order (used to build the same symbolic state twice).
+func (r *Run) RewindInputs() {
+	r.inCursor = 0
+	r.rndCursor = 0
+}
+
+// NewInput creates a fresh symbolic input (or re-issues one after a rewind).
 func (r *Run) NewInput(kind string, w int) *sym.Term {
+	if r.inCursor < len(r.inputs) {
+		rec := r.inputs[r.inCursor]
+		if rec.Kind != kind {
+			panic(&runAbort{kind: "unsupported", msg: "input sequence diverged after vpRewindInputs: " + rec.Kind + " vs " + kind})
+		}
+		t := r.inTerms[r.inCursor]
+		r.inCursor++
+		return t
+	}
+	r.inCursor++
 	name := fmt.Sprintf("in%d", r.nIn)
 	r.nIn++
 	t := r.in.ctx.Var(name, w)
@@ -1097,14 +1119,35 @@ func (r *Run) NewInput(kind string, w int) *sym.Term {
 }
 
 func (r *Run) NewInternal(w int) *sym.Term {
+	if r.rndCursor < len(r.rndTerms) {
+		t := r.rndTerms[r.rndCursor]
+		r.rndCursor++
+		return t
+	}
+	r.rndCursor++
 	name := fmt.Sprintf("rnd%d", r.nRnd)
 	r.nRnd++
 	t := r.in.ctx.Var(name, w)
+	r.rndTerms = append(r.rndTerms, t)
 	r.define(t)
 	return t
 }
 
+// ReplayChoose returns a recorded choice after a rewind.
+func (r *Run) ReplayChoose() (int, bool) {
+	if r.inCursor < len(r.inputs) {
+		rec := r.inputs[r.inCursor]
+		if rec.Kind != "choose" {
+			panic(&runAbort{kind: "unsupported", msg: "input sequence diverged after vpRewindInputs: " + rec.Kind + " vs choose"})
+		}
+		r.inCursor++
+		return int(rec.Val), true
+	}
+	return 0, false
+}
+
 func (r *Run) noteChoose(n, v int) {
+	r.inCursor++
 	r.inputs = append(r.inputs, InputRec{Name: fmt.Sprintf("choose/%d", n), Kind: "choose", Val: uint64(v)})
 	r.inTerms = append(r.inTerms, nil)
 }
@@ -1113,7 +1156,7 @@ func (r *Run) applyOrderPolicy(instr *ssa.Range, it *mapIter) {
 	r.ex.mu.Lock()
 	r.ex.MapRangeSites[r.in.siteStr(instr)] = true
 	r.ex.mu.Unlock()
-	switch r.ex.Opt.OrderPolicy {
+	switch r.orderPolicy {
 	case 1:
 		for i, j := 0, len(it.keys)-1; i < j; i, j = i+1, j-1 {
 			it.keys[i], it.keys[j] = it.keys[j], it.keys[i]
